@@ -228,6 +228,8 @@ type result struct {
 	fr      *obs.Frame
 	panicky string
 	rd      *simio.SimReader
+	qf      qframe.QFrame
+	dig     uint64
 }
 
 func read(c *gen.CSVCase, p plan) (res result) {
@@ -242,6 +244,7 @@ func read(c *gen.CSVCase, p plan) (res result) {
 	}()
 	qf := qframe.ReadCSV(rd.As(p.ReaderKind), confFuncs(c)...)
 	res.fr = obs.Of(qf)
+	res.qf, res.dig = qf, obs.Digest(qf)
 	return res
 }
 
@@ -287,6 +290,30 @@ func runC12(t *rapid.T) {
 	}
 	res := read(c, p)
 	core.Steps(res.rd.Reads)
+	// a frame stays what it was when ReadCSV is called again, on another
+	// document of the same shape and size (every lower-case letter moved on
+	// by one: buffers of the same sizes, different contents)
+	if len(c.Doc) >= 1024 || rapid.IntRange(0, 7).Draw(t, "rereadother") == 0 {
+		other := *c
+		other.Doc = make([]byte, len(c.Doc))
+		for i, ch := range c.Doc {
+			if ch >= 'a' && ch < 'z' && ch != c.Delim && ch+1 != c.Delim {
+				ch++
+			}
+			other.Doc[i] = ch
+		}
+		func() {
+			defer func() { _ = recover() }() // judged elsewhere; here only the earlier frames matter
+			read(&other, plan{Style: "whole"})
+		}()
+		for _, e := range []result{base, res} {
+			if e.panicky == "" && obs.Digest(e.qf) != e.dig {
+				core.Violation(t, "C12:earlier-frame-changed", "a frame returned by ReadCSV changed when ReadCSV was called again on another document: "+obs.Diff(e.fr, obs.Of(e.qf)), trace{Case: c, Plan: p, Expected: e.fr, Observed: obs.Of(e.qf)})
+				return
+			}
+		}
+		core.Probe("earlier-frames-rechecked-after-another-ReadCSV")
+	}
 	core.Event(c.Doc, fmt.Sprint(res.rd.Boundary), res.rd.Reads, fmt.Sprint(res.fr), res.panicky)
 	tr := trace{Case: c, Plan: p, Reads: res.rd.Reads}
 
